@@ -44,7 +44,6 @@ type verifIdx struct {
 
 	tooManyAttempts   *verifObserver
 	tooManyIterations *verifCounter
-
 }
 
 func (x *verifIdx) slot(k Key, attempt uint32) int {
